@@ -110,10 +110,10 @@ pub fn decode_op(r: &mut Rd) -> Op {
         6 | 7 => Op::Convert { u: r.u8() % 6, st: r.bool(), frac: r.u16() },
         8 => Op::HookFrom { owner: r.u8() % 6, spender: r.u8() % 6, st: r.bool(), frac: r.u16(), convert: r.bool() },
         9 | 10 | 11 => Op::Withdraw { u: r.u8() % 6 },
-        12 => Op::Transfer { u: r.u8() % 6, to: r.u8() % 9, st: r.bool(), frac: r.u16() },
+        12 => Op::Transfer { u: r.u8() % 6, to: r.u8() % 60, st: r.bool(), frac: r.u16() },
         13 => Op::SendSink { u: r.u8() % 6, st: r.bool(), frac: r.u16() },
         14 => Op::Allow { u: r.u8() % 6, spender: r.u8() % 6, st: r.bool(), frac: r.u16(), exp: r.u8() % 5 },
-        15 => Op::TransferFrom { owner: r.u8() % 6, spender: r.u8() % 6, to: r.u8() % 9, st: r.bool(), frac: r.u16() },
+        15 => Op::TransferFrom { owner: r.u8() % 6, spender: r.u8() % 6, to: r.u8() % 60, st: r.bool(), frac: r.u16() },
         16 => Op::BurnFrom { owner: r.u8() % 6, spender: r.u8() % 6, st: r.bool(), frac: r.u16() },
         17 => Op::Claim { u: r.u8() % 8, to: if r.bool() { Some(r.u8() % 6) } else { None } },
         18 | 19 => Op::Accrue { v: r.u8() % 5, coin: r.u8() % 5, amt: amt(r) },
